@@ -165,6 +165,30 @@ def run_slice(prop_id, tier, seed):
         shutil.rmtree(sc, ignore_errors=True)
 
 
+def is_my_replay(replay_file):
+    try:
+        return json.load(open(replay_file)).get("slice") == "headerlist"
+    except Exception:
+        return False
+
+
+def run_replay(prop_id, replay_file):
+    """Re-executes a saved violation of this slice on the working tree (bin/vcheck <id> --replay <file>)."""
+    sc = core.scratch("hl")
+    try:
+        pf = os.path.join(sc, "paths.ndjson")
+        family.paths_from_replay(replay_file, pf)
+        binary = family.build_overlay_test(PKG, [DRIVER], os.path.join(sc, "headerlist.test"))
+        observed, _ = family.run_driver(binary, "TestVerifHeaderListReplay", pf, os.path.join(sc, "obs.ndjson"), sc)
+        verdict = family.judge([SPEC], "HeaderListProps", PROPS[prop_id], prop_id, observed, label=label)
+        for v in verdict["violations"]:
+            print("VIOLATION property=%s replay=%s" % (prop_id, replay_file))
+            print("  violated: %s at step %d of: %s" % (",".join(v["props"]), v["step"], " ".join(v["labels"])))
+        return 1 if verdict["violations"] else 0
+    finally:
+        shutil.rmtree(sc, ignore_errors=True)
+
+
 def merge_evidence(prop_id, cov, rc=0, key="header_window_slice_headerlist"):
     """Adds this slice's measured coverage to the evidence file the calling check has just written."""
     fn = os.path.join(os.environ.get("VERIF_EVIDENCE_DIR", os.path.join(core.VERIF, "evidence")), prop_id + ".json")
